@@ -48,3 +48,8 @@ check("C04",
       "Exploration: for every generated topology x strategy x token (every ring token, neighbours, extremes) the driver's replica set (precomputed and lazy locators) is compared with reference SimpleStrategy/NetworkTopologyStrategy walkers; len, iteration, nth/size_hint, random choice, DC restriction, ring-ordered view and get_token_endpoints must describe the same nodes (and shards).",
       "Trusted: reference walkers in vkit::topo. Rings up to 12 nodes; hook-built pool-less nodes. With duplicate tokens (not a server state) only NTS answers and internal consistency are asserted.",
       "DESIGN.md 2/C04")
+check("C05",
+      "property-based testing: generated cluster states, policy configurations and requests; validity predicates over the produced plan (many correct plans exist), with reference replica walkers",
+      "Exploration: for every generated (topology with per-node enabled/connected state, policy settings, request) the plan of the default policy (Plan::new, and raw pick()/fallback()) is checked for: no target named twice, no filtered-out node, no node outside the preferred DC without failover, every other token-owning node present, live replicas first in locality order, live before down, and for LWT routing the reference ring order, identical across iterations and random states.",
+      "Trusted: reference walkers and predicates. Latency awareness off; hook-built pool-less nodes with overridden enabled/connected state and sharder.",
+      "DESIGN.md 2/C05")
